@@ -78,6 +78,22 @@ def rule_config_class(ctx, repo):
 def rule_options(ctx, repo):
     f = F.method(repo, "System", "_update_config_object", SYSTEM)
     g = f.g
+    # precedence option > file: every well-formed option is written into the parser object, which already holds the rc file;
+    # no condition on what the object contains may stand between an option and its `set`
+    for lp in [l for l in ast.walk(f.fn) if isinstance(l, ast.For) and "config_option" in src(l.iter)]:
+        sets = [c for c in calls_in(lp) if isinstance(c.func, ast.Attribute) and c.func.attr == "set" and "_config_object" in src(c.func.value)]
+        skips = [x for x in ast.walk(lp) if isinstance(x, ast.Continue)]
+        bad = []
+        for sk in skips:
+            ch = Q.condition_chain(lp, sk) or []
+            bad += ["`continue` under `%s`" % src(c.test) for c in ch if hasattr(c, "test")] or ["unconditional `continue`"]
+        for c in sets:
+            st = next((x for x in ast.walk(lp) if isinstance(x, ast.Expr) and x.value is c), None)
+            ch = Q.condition_chain(lp, st) if st is not None else []
+            bad += ["`set` under `%s`" % src(x.test) for x in (ch or []) if hasattr(x, "test")]
+        ctx.check(bool(sets) and not bad, "C20.precedence", "_update_config_object/overwrite", "every option is written over whatever the rc file supplied",
+                  "%s: an option can be skipped depending on what the parser object already holds (the rc file) -- the file value then beats the "
+                  "option" % "; ".join(bad[:2]) if bad else "no `_config_object.set(section, key, value)` in the option loop", f.W(lp))
     t1 = [tn for tn in g.nodes() if g.data(tn)["kind"] == "test" and Q.match("item.count('=') != 1", g.data(tn)["ast"].test)]
     t2 = [tn for tn in g.nodes() if g.data(tn)["kind"] == "test" and Q.match("field.count('.') != 1", g.data(tn)["ast"].test)]
     rs = [n for n in g.nodes() if g.data(n)["kind"] == "stmt" and isinstance(g.data(n)["ast"], ast.Raise) and "ValueError" in src(g.data(n)["ast"])]
@@ -357,7 +373,7 @@ def rule_ownership(ctx, repo):
 def run(ctx):
     ctx.rule("C20.cache", "readers that validate or export go through a refreshed (or non-caching) dict view", 2)
     ctx.rule("C20.ownership", "rc parser object is fresh per load (it is mutated in place by the option merge)", 1)
-    ctx.rule("C20.precedence", "Config._add skips loaded keys; load reads own section; update overwrites then checks", 3)
+    ctx.rule("C20.precedence", "Config._add skips loaded keys; load reads own section; update overwrites then checks; options overwrite the file", 4)
     ctx.rule("C20.coercion", "coercion chain int -> float -> unchanged", 1)
     ctx.rule("C20.alternatives", "alternatives enforced by check()", 1)
     ctx.rule("C20.options", "malformed option => raise; sections created iff absent; merge before first load; default_config", 5)
